@@ -200,9 +200,13 @@ pub fn check_case_out(env: &Env, ctx: &Ctx, c: &Case) -> (Option<Violation>, Vec
             }
             (check_result(c, &r), got)
         }
-        Err(_) => (None, vec![]),
+        // the run itself could not be carried out (spawn failure under load ...): no output to compare
+        Err(_) => (None, RUN_FAILED.to_vec()),
     }
 }
+
+/// Stands for "this run could not be carried out" in the place of the rendered bytes.
+const RUN_FAILED: &[u8] = b"\0<deltasim: run failed>\0";
 
 fn check_result(c: &Case, r: &RunResult) -> Option<Violation> {
     if r.timed_out {
@@ -277,7 +281,11 @@ pub fn main_c20(env: &Env, tier: &str, seed: u64, replay: Option<&str>) -> i32 {
             }
             Some(&j) => {
                 let out_j = results_full[j].as_ref().map(|x| x.1.clone()).unwrap_or_default();
-                if out_i != out_j && results[i].as_ref().map(|x| x.is_none()).unwrap_or(true) {
+                if out_i != out_j && out_i != RUN_FAILED && out_j != RUN_FAILED && !out_i.is_empty() && !out_j.is_empty() && results[i].as_ref().map(|x| x.is_none()).unwrap_or(true) {
+                    if let Ok(dir) = std::env::var("DELTASIM_KEEP_MISMATCH") {
+                        let _ = std::fs::write(format!("{}/mismatch-{}-a.bin", dir, i), &out_i);
+                        let _ = std::fs::write(format!("{}/mismatch-{}-b.bin", dir, i), &out_j);
+                    }
                     results[i] = Some(Some(Violation::new("S-same-answer", "e1:rendering-depends-on-scan-timing", format!("[{}] renders differently from [{}]: the answer about the calling process depended on when the background scan finished", c.name, cs[j].name))));
                 }
             }
